@@ -117,7 +117,8 @@ def frame_unchanged(before_terms, arr):
 
 
 def rng(seed, *salt):
-    return random.Random(hash((seed,) + salt) & 0xffffffff)
+    import zlib
+    return random.Random(zlib.crc32(repr((seed,) + salt).encode()))
 
 
 class PathProver:
